@@ -31,13 +31,13 @@ type emitSite struct {
 }
 
 func checkC02(c *Ctx) {
-	c.Rule("R2.1", "EncodeEntry: emission order, omission guard sets, tested key = used key", 20)
-	c.Rule("R2.2", "narrow-width wrappers widen within the same signedness; float32/complex64 precision; binary via base64", 23)
-	c.Rule("R2.3", "reference encoders store the parameter itself; nested values get fresh containers", 45)
+	c.Rule("R2.1", "EncodeEntry: emission order, omission guard sets, tested key = used key", 17)
+	c.Rule("R2.2", "narrow-width wrappers widen within the same signedness; float32/complex64 precision; binary via base64", 14)
+	c.Rule("R2.3", "reference encoders store the parameter itself; nested values get fresh containers", 29)
 	c.Rule("R2.5", "every UnixNano() on an encoder's time argument is range-guarded (contradiction with zap.Time's range belief)", 5)
-	c.Rule("R2.6", "number formatting: strconv base 10 / shortest 'f' on every path; NaN/±Inf arms agree with their literals", 6)
-	c.Rule("R2.7", "error expansion: message, Causes, Verbose-if-different; nil causes skipped", 6)
-	c.Rule("R2.8", "reflection fallback: HTML escaping off, null shortcut, reset before / trim after", 4)
+	c.Rule("R2.6", "number formatting: strconv base 10 / shortest 'f' on every path; NaN/±Inf arms agree with their literals", 4)
+	c.Rule("R2.7", "error expansion: message, Causes, Verbose-if-different; nil causes skipped", 4)
+	c.Rule("R2.8", "reflection fallback: HTML escaping off, null shortcut, reset before / trim after", 3)
 	c.Rule("R2.9", "nesting: objects/arrays/namespaces are closed at the level they were opened on every path (incl. marshaler errors)", 10)
 	c1Namespace(c, "R2.9")
 	c1Pairing(c, "R2.9")
